@@ -7,7 +7,10 @@ join(cmds) == FmtAll(i)"; each appended command is proved equal to the format wr
 with the key token at most 250 bytes without separators (C20's contract, re-established here as dep:C20), decimal
 numeric tokens, <bytes> == len of the *encoded* data, and exactly the batch is sent once. An illegal key or a
 non-integer expire/flags raises MemcacheIllegalInputError with nothing sent (multi-key atomicity).
-delete / incr / decr / touch / flush_all: the single command handed to _misc_cmd equals the documented format with
+get / gets / gat / gats: the command written is '<verb>[ <exptime>] <prefix+enc(key)>\\r\\n', sent once, only for a legal key.
+set / add / replace / append / prepend / cas: one _store_cmd call with the verb of the method's own name and the caller's
+key, value, expire, flags; cas tokens are decimal.
+delete / delete_many / incr / decr / touch / flush_all: the single command handed to _misc_cmd equals the documented format with
 the noreply marker iff the call does not wait, for bytes and str keys, int / bool / non-int arguments.
 """
 import z3
@@ -19,7 +22,7 @@ ASSUMPTIONS = ["Client.encoding is ascii or utf-8 (ASCII-compatible); other code
                "integer arguments are within the protocol's ranges (flags < 2^32, exptime signed 64-bit, delta/cas < 2^64)",
                "mixed bytes/str keys within one dict are covered element-wise (each item independently)"]
 NOT_COVERED = ["raw_command (sends caller bytes by design)", "HashClient multi-key atomicity (excluded by the statement)",
-               "command text of get/gets/gat/gats/get_many/delete_many/stats/cache_memlimit/version/quit/shutdown (not yet mechanised)",
+               "command text of get_many/gets_many/stats/cache_memlimit/version/quit/shutdown (not yet mechanised)",
                "uniqueness of the strict parse (lemma strict-parse of DESIGN 4.2 is not mechanised; token classes are proved)",
                "the empty prefixed key: recorded known finding, re-confirmed by witness replay each run"]
 BUDGET = {"quick": 30, "thorough": 120}
@@ -34,6 +37,9 @@ def build(E, tier):
         cm.verify_store_cmd(E, "C02", "exception", verbs=("set",) if only else ("set", "cas"))
     if only in (None, "misc"):
         cm.verify_public_misc(E)
+        cm.verify_fetch_cmd(E, names=("get", "gets", "gat", "gats") if tier == "thorough" else ("get", "gats"))
+        cm.verify_public_store(E)
+        cm.verify_public_fetch(E)
     cm.verify_delete_many(E)
 
 
@@ -187,6 +193,8 @@ def replay(ob, res):
     if "r" not in _rc:
         _rc["r"] = rp.run_real(REPLAY, {}, timeout=600)
     obs = _rc["r"]
-    if obs.get("failing"):
+    from pyvc.replay import failing_of
+    if failing_of(obs):
+        obs = dict(obs, failing=failing_of(obs))
         return {"reproduced": True, "call": "Client(...).<op> with a fake socket; sent bytes vs strict parser", "input": obs["failing"], "cases_tried": obs.get("cases")}
     return {"reproduced": False, "searched": obs}
